@@ -136,7 +136,29 @@ def run_engine_check(prop, tier, *, model_cfgs, families, decorate_kw, nontrivia
     if extra_scenarios:
         scs += extra_scenarios(rnd)
     engine.decorate(scs, seed=vlib.SEED, **decorate_kw)
-    lines, wall_go = engine.replay(scs, repo=repo)
+    killed = []
+    while True:
+        try:
+            lines, wall_go = engine.replay(scs, repo=repo)
+            break
+        except engine.ProcessKilled as k:
+            # C13: "a panic inside a node body ... never kills the process".  Reproduce with that scenario alone, then go on without it.
+            victim = [s for s in scs if s["id"] == k.case_id]
+            again = False
+            if victim:
+                try:
+                    engine.replay(victim, repo=repo)
+                except engine.ProcessKilled:
+                    again = True
+            if not again or len(killed) >= 3:
+                if not again:
+                    raise Inconclusive("the test process died once while running %s but not when it was replayed alone\n%s" % (k.case_id, k.output))
+                killed.append((victim[0], k.output))
+                break
+            killed.append((victim[0], k.output))
+            scs = [s for s in scs if s["id"] != k.case_id and not (len(killed) >= 3)]
+    if killed and len(killed) >= 3:
+        lines, wall_go = [], 0.0
     log("  replayed %d scenarios on the real engine: %d observation lines, %.0fs" % (len(scs), len(lines), wall_go))
     res = engine.validate(lines)
     idx = engine.index_cases(lines)
@@ -173,6 +195,11 @@ def run_engine_check(prop, tier, *, model_cfgs, families, decorate_kw, nontrivia
         case = idx[cid][0]
         sig = classify(case, reason, obs) if classify else reason
         verdict.violation(sig, {"scenario": {k: v for k, v in next(s for s in scs if s["id"] == cid).items()}, "observations": obs}, reason)
+    if "C13" == prop:
+        for sc, output in killed:
+            verdict.violation("node-panic-killed-the-process", {"scenario": sc, "go_test_output_tail": output[-1500:]}, "an injected node panic was not contained")
+    elif killed:
+        log("  note: %d scenarios killed the test process (injected panic not contained): clause of C13" % len(killed))
     code, n_new, n_known = verdict.finish()
     sigs = set()
     nontriv = 0
@@ -315,4 +342,26 @@ def c13(tier, repo=None):
                             assumptions=["a failing side branch of an eager (workflow) run that does not feed END may go unreported when END is assembled first (not judged)"])
 
 
-CHECKS = {"C01": c01, "C02": c02, "C05": c05, "C06": c06, "C13": c13}
+def c11(tier, repo=None):
+    def nontrivial(case, obs):
+        """at least three critical sections on a state were observed (pre/post handlers, ProcessState in bodies)"""
+        return sum(1 for ln in obs if ln.startswith('{"ev":"cs"')) >= 3
+    if tier == "quick":
+        fams = [("sd3", consts("dag", 3, 4, 1, 0, marks=1, rerun=True), {}),
+                ("sw3", consts("wf", 3, 4, 0, 0, marks=1), {}),
+                ("sp2", consts("pregel", 2, 3, 1, 1, marks=1, rerun=True, maxchoice=(3,)), {})]
+        limit = 20000
+    else:
+        fams = [("sd3", consts("dag", 3, 4, 1, 0, marks=2, rerun=True, multi=True), {"timeout": 1800}),
+                ("sw3", consts("wf", 3, 4, 1, 0, marks=2, rerun=True), {"timeout": 1800}),
+                ("sp3", consts("pregel", 3, 3, 1, 1, marks=2, rerun=True, maxchoice=(3,)), {"timeout": 1800}),
+                ("sd4s", consts("dag", 4, 7, 2, 0, marks=2, rerun=True, multi=True), {"simulate": "num=40000", "depth": 14, "seed": vlib.SEED, "workers": 1})]
+        limit = 200000
+    return run_engine_check("C11", tier, model_cfgs=["MC_EinoRun_pregel2.cfg"], families=fams, decorate_kw={"state_variants": True},
+                            nontrivial=nontrivial, nest_frac=0.15, nest_marks=True, limit=limit, repo=repo,
+                            assumptions=["every pre-handler, post-handler and ProcessState callback of the harness performs one read-yield-write critical section on a counter kept in the state and logs it inside the lock; the rule demands that each one sees exactly the number of sections performed before it on that state (fresh state per run and per execution of a stateful nested graph, no lost update, carried over interrupts, +100 when the caller's state modifier ran)",
+                                         "the deprecated GetState accessor is outside the property",
+                                         "data-race freedom itself is not a trace property: the thorough tier additionally runs the replay under the Go race detector"])
+
+
+CHECKS = {"C01": c01, "C02": c02, "C05": c05, "C06": c06, "C13": c13, "C11": c11}
